@@ -67,7 +67,32 @@ class C06(Check):
     def bounds(self, tier):
         return {"positions": [p[0] for p in POSITIONS], "names": NAMES}
 
+    def code_derived_names(self):
+        """case variants of the identifier-like string literals the parser (and the crate's `const NAME: &str`) compares
+        names against: a name that differs from such a word only by letter case must still be preserved"""
+        import glob
+        words = set()
+        root = os.path.join(native.REPO, "quil-rs", "src")
+        for f in glob.glob(os.path.join(root, "parser", "*.rs")):
+            src = re.sub(r"//[^\n]*", "", open(f).read())
+            src = src.split("#[cfg(test)]")[0]
+            words.update(re.findall(r'"([A-Za-z][A-Za-z0-9_-]{1,15})"', src))
+        for f in glob.glob(os.path.join(root, "**", "*.rs"), recursive=True):
+            words.update(re.findall(r'const [A-Z_]+: &(?:\'static )?str = "([A-Za-z][A-Za-z0-9_-]{1,15})"', open(f).read()))
+        out = []
+        for w in sorted(words):
+            for v in (w.capitalize(), w.lower(), w.upper()):
+                if v != w and v not in out and v not in NAMES and v.lower() not in RESERVED and not v[0].isdigit(): out.append(v); break
+        return out[:14]
+
     def setup(self, world, runner, tier):
+        global NAMES
+        extra = self.code_derived_names()
+        # keep only names that lex as one identifier token
+        res = runner.call({"op": "lex", "texts": extra})["results"]
+        extra = [n for n, r in zip(extra, res) if r.get("ok") == [f"IDENTIFIER({n})"]]
+        for n in extra:
+            if n not in NAMES: NAMES.append(n)
         self.td = world.td
         self.lex = Lexemes(runner, world.td)
         texts = [p[1].format(n=SENT) for p in POSITIONS]
